@@ -24,3 +24,5 @@ func c13frame(idx int) { frameLemma(idx, "C13") }
 func c19frame(idx int) { frameLemma(idx, "C19") }
 func c07frame(idx int) { frameLemma(idx, "C07") }
 func c02frame(idx int) { frameLemma(idx, "C02") }
+func c04frame(idx int) { frameLemma(idx, "C04") }
+func c05frame(idx int) { frameLemma(idx, "C05") }
